@@ -4863,6 +4863,11 @@ impl<'a> SpanTotal<'a> {
 
         assert!(self.unit >= Unit::Day);
         let sign = relspan.span.get_sign_ranged();
+        // A zero span has no direction, and so the interval used below to
+        // compute the fractional part would be empty (leading to `0/0`).
+        if sign == C(0) {
+            return Ok(0.0);
+        }
         let (relative_start, relative_end) = match relspan.kind {
             RelativeSpanKind::Civil { start, end } => {
                 let start = Relative::Civil(start);
@@ -6457,8 +6462,12 @@ impl Nudge {
         let exact = (truncated.get() as f64)
             + (numer / denom) * (sign.get() as f64) * (increment.get() as f64);
         let rounded = mode.round_float(exact, increment);
+        // N.B. `f64::signum` returns `1.0` for `0.0`. When the span is
+        // already an exact multiple of the increment, rounding doesn't change
+        // anything and the span must not be treated as having grown.
+        let diff = (rounded.get() as f64) - exact;
         let grew_big_unit =
-            ((rounded.get() as f64) - exact).signum() == (sign.get() as f64);
+            diff != 0.0 && diff.signum() == (sign.get() as f64);
 
         let span = span
             .try_units_ranged(smallest, rounded.rinto())
@@ -6500,7 +6509,8 @@ impl Nudge {
         let mut day_delta = NoUnits::N::<0>();
         let rounded_relative_end =
             if beyond_day_nanos == C(0) || beyond_day_nanos.signum() == sign {
-                day_delta += C(1);
+                // The span grows by one day *in the direction of the span*.
+                day_delta += NoUnits::rfrom(sign);
                 rounded_time_nanos = mode.round_by_unit_in_nanoseconds(
                     beyond_day_nanos,
                     smallest,
